@@ -127,6 +127,18 @@ def run(report, findings):
                 except Exception as ex:
                     err = f"raised {type(ex).__name__}: {ex}"
                 add(f, err)
+            # a trials column that happens to be constant in training is still a column: the new frame's values are reported
+            dc = d.copy()
+            dc["trials"] = 12
+            f = f"{alias}(k, trials) ~ x"
+            try:
+                dm = design_matrices(f, dc)
+                nt = np.asarray(dm.response.evaluate_new_data(new), dtype=float).reshape(-1)
+                err = None if np.array_equal(nt, new["trials"].values.astype(float)) else \
+                    "trials column constant in training: prediction does not report the trials of the new frame"
+            except Exception as ex:
+                err = f"raised {type(ex).__name__}: {ex}"
+            add(f + " (training trials all 12)", err)
             # some / all / no rows with successes > trials; non-integers
             for nbad in (0, 1, len(d) // 2, len(d)):
                 e = d.copy()
